@@ -3,6 +3,9 @@ package world
 import (
 	"sort"
 	"strings"
+	"time"
+
+	"gfverif/sim"
 
 	"github.com/nyaruka/goflow/envs"
 	"github.com/nyaruka/goflow/excellent/types"
@@ -18,6 +21,7 @@ type TestCall struct {
 	Truthy  bool
 	IsErr   bool
 	Match   string
+	At      time.Time // the simulated clock when the test was called (not a clock read)
 }
 
 // recorder wraps every entry of cases.XTESTS (the exported registry the switch router
@@ -28,7 +32,7 @@ type recorder struct {
 	calls []TestCall
 }
 
-func installRecorders() *recorder {
+func installRecorders(clock *sim.Clock) *recorder {
 	r := &recorder{orig: map[string]*types.XFunction{}}
 	names := make([]string, 0, len(cases.XTESTS))
 	for n := range cases.XTESTS {
@@ -41,7 +45,7 @@ func installRecorders() *recorder {
 		nm := name
 		cases.XTESTS[name] = types.NewXFunction(name, func(env envs.Environment, args ...types.XValue) types.XValue {
 			res := orig.Call(env, args)
-			tc := TestCall{Name: nm, Args: append([]types.XValue{}, args...), Result: res}
+			tc := TestCall{Name: nm, Args: append([]types.XValue{}, args...), Result: res, At: clock.T}
 			for _, a := range args {
 				if a == nil {
 					tc.ArgText = append(tc.ArgText, "<nil>")
